@@ -249,6 +249,24 @@ func TestC03(t *testing.T) {
 		}
 	}
 	overLimitCases(newRng(333), func(ty *Ty, d []byte) { do("overlimit", ty, d) })
+	// containers with many fields (field index beyond 64, offsets beyond one byte)
+	{
+		gw := &gen{r: newRng(334), maxElem: 4}
+		for _, ty := range wideContainers() {
+			for k := 0; k < 3; k++ {
+				vw, err := buildViewSafe(ty, gw.val(ty))
+				if err != nil {
+					continue
+				}
+				data, err := serializeView(vw)
+				if err != nil {
+					continue
+				}
+				do("wide", ty, data)
+				corrupt(gw.r, data, 6, func(tag string, d []byte) { do("wide-"+tag, ty, d) })
+			}
+		}
+	}
 	// leaf types at exactly their size (valid + bool 2)
 	n := 260
 	if thorough() {
